@@ -352,3 +352,64 @@ Definition toml_bare_char (c : N) : bool :=
   ((48 <=? c) && (c <=? 57)) || ((65 <=? c) && (c <=? 90)) || ((97 <=? c) && (c <=? 122))
   || (c =? 45) || (c =? 95).
 Definition toml_bare_key (s : str) : Prop := s <> [] /\ Forall (fun c => toml_bare_char c = true) s.
+
+(* ---------------------------------------------------------------- YAML 1.2.2 core schema (10.3.2)
+   Plain scalars that do NOT resolve to a string:
+     null | Null | NULL | ~                 true | True | TRUE | false | False | FALSE
+     [-+]? [0-9]+          0o [0-7]+          0x [0-9a-fA-F]+
+     [-+]? ( \. [0-9]+ | [0-9]+ ( \. [0-9]* )? ) ( [eE] [-+]? [0-9]+ )?
+     [-+]? ( \.inf | \.Inf | \.INF )        \.nan | \.NaN | \.NAN
+   A mapping key written as such a plain scalar is read back as null, a boolean or a number. *)
+Definition strip_sign (s : str) : str :=
+  match s with
+  | c :: r => if (c =? 43) || (c =? 45) then r else s
+  | [] => s
+  end.
+
+Definition nonempty_all (p : N -> bool) (s : str) : bool :=
+  match s with [] => false | _ :: _ => forallb p s end.
+
+Definition is_oct (c : N) : bool := (48 <=? c) && (c <=? 55).
+
+Definition after (prefix s : str) (k : str -> bool) : bool :=
+  match expect prefix s with Some r => k r | None => false end.
+
+Definition core_int (s : str) : bool :=
+  nonempty_all is_dig (strip_sign s)
+  || after [48; 111] s (nonempty_all is_oct)
+  || after [48; 120] s (nonempty_all is_hex).
+
+Definition core_float_mantissa (s : str) : option str :=
+  match s with
+  | [] => None
+  | c :: r =>
+      if c =? 46 then digits1 r
+      else match digits1 s with
+           | Some (c2 :: r2) => if c2 =? 46 then Some (skip_digits r2) else Some (c2 :: r2)
+           | Some [] => Some []
+           | None => None
+           end
+  end.
+
+Definition core_float (s : str) : bool :=
+  match core_float_mantissa (strip_sign s) with
+  | Some r => match json_exp r with Some [] => true | _ => false end
+  | None => false
+  end.
+
+Fixpoint str_eq (a b : str) : bool :=
+  match a, b with
+  | [], [] => true
+  | x :: a', y :: b' => (x =? y) && str_eq a' b'
+  | _, _ => false
+  end.
+
+Definition one_of (ws : list str) (s : str) : bool := existsb (str_eq s) ws.
+
+Definition yaml12_core_nonstring (s : str) : bool :=
+  one_of [[110;117;108;108]; [78;117;108;108]; [78;85;76;76]; [126];
+          [116;114;117;101]; [84;114;117;101]; [84;82;85;69];
+          [102;97;108;115;101]; [70;97;108;115;101]; [70;65;76;83;69];
+          [46;110;97;110]; [46;78;97;78]; [46;78;65;78]] s
+  || one_of [[46;105;110;102]; [46;73;110;102]; [46;73;78;70]] (strip_sign s)
+  || core_int s || core_float s.
